@@ -352,6 +352,17 @@ def chain_cases():
     src = ["def in1(b: bool, c: bool) -> bool:", "\tdef in2(b: bool) -> bool:", "\t\treturn not b",
            "\treturn in2(c) and b", "return in1(q, p) ^ in1(p, p)"]
     out.append(mk_case([], [["p", B], ["q", B]], B, src, "inline-nested", kind="inline"))
+    # inline callees that re-assign a local variable / their own parameters (the callee's definition list
+    # then binds one symbol several times: bind_function must compress it in order, latest binding wins)
+    src = ["def rl(a: bool, b: bool) -> bool:", "\tc = a ^ b", "\tc = c and a", "\treturn c or b", "return rl(q, p)"]
+    out.append(mk_case([], [["p", B], ["q", B]], B, src, "inline-reassign-local", kind="inline"))
+    src = ["def rp(a: bool, b: bool) -> bool:", "\ta = a ^ b", "\tb = a and b", "\treturn a or b", "return rp(p, q)"]
+    out.append(mk_case([], [["p", B], ["q", B]], B, src, "inline-reassign-param", kind="inline"))
+    src = ["def rp2(a: bool, b: bool, c: bool) -> bool:", "\tb = b ^ a", "\ta = a and c", "\tc = b or a", "\tb = not c",
+           "\treturn (a ^ b) or c", "return rp2(q, p, q) ^ rp2(p, p, q)"]
+    out.append(mk_case([], [["p", B], ["q", B]], B, src, "inline-reassign-param", kind="inline"))
+    src = ["def ri(a: Qint[2], b: Qint[2]) -> Qint[2]:", "\ta = a + b", "\tb = a ^ b", "\treturn a + b", "return ri(q, p)"]
+    out.append(mk_case([], [["p", Q(2)], ["q", Q(2)]], Q(2), src, "inline-reassign-param", kind="inline"))
     return out
 
 
